@@ -9,7 +9,7 @@ from . import c04
 ID = "C06"
 RULE = (
     "Graph cases of every family with a drawn fixed-subset mode: wellposed (one anchor) / extra-fixed (several) / all-fixed / "
-    "isolated-fixed (fixed vertices with no incident edge appended) / refix-history (fixed flags changed between optimize() calls on the same Graph object) / shared-pose-object (a fixed and a free vertex initialised from one pose object) / isolated-free (an unconstrained free vertex => exactly singular system, next to fixed vertices) / only-landmarks-fixed / no-fixed (singular normal equations) / diverging "
+    "isolated-fixed (fixed vertices with no incident edge appended) / refix-history (fixed flags changed between optimize() calls on the same Graph object) / shared-pose-object (a fixed and a free vertex initialised from one pose object) / vertices-in-second-graph (the Vertex objects are also listed, in another order, by a second Graph) / isolated-free (an unconstrained free vertex => exactly singular system, next to fixed vertices) / only-landmarks-fixed / no-fixed (singular normal equations) / diverging "
     "(perturbation up to 3, 3 rad); 1..20 iterations; fix_first_pose in {T,F}. Oracles: (1) every vertex fixed at solve time is unchanged and "
     "finite in every outcome, incl. singular solves; (2) fixed flags: fix_first_pose=True sets exactly vertices[0].fixed, False changes none; "
     "(3) reduced problem: closed-form WLS with fixed coordinates as constants for R^n graphs, the dense reference Gauss-Newton step on the "
@@ -23,7 +23,7 @@ TOLERANCES = {
 }
 ASSUMPTIONS = ["reference model trusted after self-test", "singular solves: scipy may return NaN or garbage for the free unknowns; only fixed vertices and flags are judged there"]
 
-MODES = ["wellposed", "extra-fixed", "extra-fixed", "refix-history", "refix-history", "shared-pose-object", "all-fixed", "isolated-fixed", "isolated-fixed", "isolated-free", "only-landmarks-fixed", "no-fixed", "diverging"]
+MODES = ["wellposed", "extra-fixed", "extra-fixed", "refix-history", "refix-history", "shared-pose-object", "vertices-in-second-graph", "all-fixed", "isolated-fixed", "isolated-fixed", "isolated-free", "only-landmarks-fixed", "no-fixed", "diverging"]
 
 
 @S.composite
@@ -164,6 +164,19 @@ def check(case, ctx):
 
     if mode == "refix-history":
         return _check_refix_history(case, ctx, S_)
+
+    if mode == "vertices-in-second-graph":
+        # the same Vertex objects are put into a second Graph that lists them in another order (its constructor assigns
+        # its own bookkeeping to them); the first graph must still take exact Gauss-Newton steps and keep fixed vertices
+        g = GG.build(case)
+        others = [GG.build_edge(e) for e in case["edges"]]
+        order = list(range(len(g._vertices)))
+        order = order[1:] + order[:1] if case["iters"] % 2 else order[::-1]
+        gs.Graph(others, [g._vertices[i] for i in order])
+        ctx.event("vertices-renumbered-by-a-second-graph")
+        if GC.gn_step_oracle(ctx, case, g, ff, S_, check_report=True):
+            return
+        return
 
     # ---- the run under test: k iterations
     g = GG.build(case)
